@@ -213,6 +213,8 @@ def main(argv=None):
 
     rc = 0
     repdir = os.path.join(VERIF_ROOT, "replays", prop)
+    if not args.only and os.path.isdir(repdir):
+        shutil.rmtree(repdir, ignore_errors=True)      # witnesses of earlier runs are stale
     for key, vs in sorted(known.items()):
         f = [x for x in findings if (x.get("key") or x.get("key_prefix")) == key and x["property"] == prop][0]
         print("KNOWN-FINDING: property=%s %s: %s (%d witnesses this run)" % (prop, key, f["what"], len(vs)))
